@@ -148,6 +148,22 @@ def run(ctx):
                 ctx.sample({"kind": kind, "input": inp, "configs": configs})
             if res and res != "trivial":
                 ctx.violation(res["detail"], res)
+    uml_mutants(ctx)
+
+
+def uml_mutants(ctx):
+    """UML mutants (classes renamed to existing names, retyped members ...) under different hash seeds."""
+    n = ctx.budget(4, 60)
+    for i in range(n):
+        kind = "uml_mut" if i % 3 else "uml_cs_mut"
+        inp = {"name": ctx.rng.choice(kj.UML_DIAGRAMS), "ns": ctx.rng.choice(["", "1"]), "mut_seed": ctx.rng.randint(0, 1 << 30),
+               "mut_n": ctx.rng.randint(1, 4), "lang": kind}
+        configs = [CONFIGS[0], ("abs", 1 + i % 7, "", None, None, "UTC"), ("abs", 11 + i % 5, "", None, None, "UTC")]
+        res = one_case(ctx, kind, inp, None, 0, configs)
+        ctx.case((kind, json.dumps(inp, sort_keys=True)), nontrivial=(res != "trivial"))
+        ctx.count("e2e_" + kind)
+        if res and res != "trivial":
+            ctx.violation(res["detail"], res)
 
 
 def replay(ctx, data):
